@@ -339,7 +339,7 @@ func (h *harness) compoundCases(r *gen.Rand, n int) {
 			nd := gen.Pick(r, []int{1, 2, 5, 12})
 			runes := 0
 			for k := 0; k < nd; k++ {
-				d := genDoc(r, rp, k, 25, runes, false)
+				d := genDocM(r, rp, k, 25, runes, false, i%5 == 4)
 				runes += countRunes(d.Content)
 				docs = append(docs, d)
 			}
